@@ -16,6 +16,28 @@ CLAIMED = {
    design='§4 C17'),
 }
 
+CLAIMED.update({
+ 'C01': dict(
+   technique='contract-based deductive verification: AST symbolic executor over the real functions with sidecar contracts (Boogie-style heap, loop invariants, calls by contract), typed quantifier instantiation -> QF VCs (z3); bounded-scope refutation + native replay',
+   level='proof',
+   text='Well-formedness (indices in range, single producer, execution order, graph outputs in range, inserted op placed after the producer and before the first consumer) is proved as a postcondition of the real insert_quant / insert_dequant / add_op_code / add_new_activation_tensor for every graph size, operand count and consumer list (ghost producer map; all loops by invariant). '
+        'The generator->performer composition and name uniqueness are covered only by labelled bounded stand-ins.',
+   note='Unchecked: LiteRT allocate/invoke (external runtime); flatbuffer serializer fidelity; object-API classes modelled as attribute bags; numpy int32 index arrays as int lists. Performer op-id bookkeeping: see evidence (contracts in progress).',
+   design='§4 C01'),
+ 'C12': dict(
+   technique='contract-based verification by exhaustive native execution of the real to_dict/from_dict/__post_init__/RecipeManager code over the finite config skeleton with opaque integers (parametricity => all integers)',
+   level='proof',
+   text='from_dict(json(to_dict(c))) == c for every constructible config skeleton (920 shapes x opaque integers, enum- and string-valued), rule-level round trip for the three algorithms, every shipped recipe file loads and the default recipes re-export to themselves; complete by parametricity because no integer is ever inspected (an inspection raises).',
+   note='JSON modelled as identity on opaque ints (real json module otherwise). "Same model bytes" follows from C11 (resolution is a function of the rule list) and C14; not re-executed. Histories of update/load calls only as a bounded stand-in.',
+   design='§4 C12'),
+ 'C13': dict(
+   technique='contract-based verification by exhaustive native execution of the real acceptance / resolution / materialisation-guard functions over the full finite (op, config, algorithm) lattice of the property',
+   level='proof',
+   text='accept <=> policy membership, ValueError-only refusal, silent fallback under *, and no late Python-side failure for every accepted pair, over all 47,040 lattice points (24 selectors x 980 configs x 2 algorithms): the lattice is finite, so the enumeration is a complete decision of these clauses.',
+   note='Not decided: the interpreter prepares the model and its outputs track the float model (external LiteRT runtime).',
+   design='§4 C13'),
+})
+
 NOT_APPLICABLE = {
  'C06': 'equivalence of two executions inside the LiteRT C++ interpreter; no function of /repo computes or constrains those outputs, so no contract on /repo can express it (DESIGN §7); its structural preconditions are decided under C03-C05',
  'C07': 'numerical closeness of the LiteRT integer kernels to the float kernels; the deciding code is the external runtime, outside any contract on /repo (DESIGN §7)',
